@@ -10,16 +10,20 @@ def run(tier, seed):
                          'Tier P (unbounded, from the current source text): (1) every LUT constant of kyupy.sim equals the truth table of the gate its name '
                          'denotes and kind_prefixes selects the right family member (ground); (2) the 2-valued evaluation loop in both copies (_prop_cpu and the '
                          'callback path of LogicSim.c_prop) is proved, for any op list and any memory map, to leave c equal to the fold of the per-op spec step '
-                         '(lane-wise lifted gate function by name; all row aliasings; index bounds; frame; unknown-op arm unreachable). '
+                         '(lane-wise lifted gate function by name; all row aliasings; index bounds; frame; unknown-op arm unreachable); (3) composition over the op list: with ghost netlist values V along the '
+                         'op list and an abstract liveness satisfying the memory-map hypotheses A2-A5 (operands live when read, liveness starts at production, no clobbering of live '
+                         'slots, live slots off the scratch rows) every live slot holds its gate-by-gate value after every op, hence every captured line after the last. '
                          'Tier B (bounded): translation of the netlist into ops, assign/capture/state transfer/cycle and the composition to netlist level are checked '
                          'by running the real LogicSim against the gate-by-gate oracle on a stated circuit space.')
-    res.report = verify(logic_sim_c.targets(ms=(2,)) + [logic_sim_c.lut_lemmas(), logic_sim_c.lifting_lemmas()],
+    res.report = verify(logic_sim_c.targets(ms=(2,)) + logic_sim_c.composition_targets(ms=(2,)) + [logic_sim_c.lut_lemmas(), logic_sim_c.lifting_lemmas()],
                         timeout_s=20 if tier == 'quick' else 120)
-    res.bounded = [logic_drv.logic_part('C01', (2,), tier, seed, with_cycles=True,
+    from bounded import simops_drv
+    res.bounded = [simops_drv.part(tier, seed, which=('map',), pid='C01'), logic_drv.logic_part('C01', (2,), tier, seed, with_cycles=True,
                                         options=({}, {'c_reuse': True}) if tier == 'quick' else ({}, {'c_reuse': True}))]
     res.assumptions = ['tier P requires (op codes among the 33 primitives, locations in range) hold for real SimOps instances: bounded part only',
                        'SimOps.__init__ translation, s_to_c/c_to_s/s_ppo_to_ppi/cycle (numpy advanced indexing): bounded part only',
-                       'composition from per-op semantics to netlist semantics (NoClobber of the memory map): bounded part only (C08 checks the map)',
+                       'the memory-map hypotheses A2-A5 of the composition contract and single production / topological order of the op list (S2, S3) hold for real SimOps instances: bounded part (check_live_hypotheses, MapValid)',
+                       'ghost values V equal the netlist semantics only if the op list is the translation of the netlist: bounded part',
                        'numpy element-wise/view semantics; integers mathematical; spec.gates/spec.evaln are the oracle']
     res.trusted_base = ['pyvc', 'z3 5.1.0', 'spec.gates, spec.evaln', 'bounded/logic_drv.py']
     return res
